@@ -72,6 +72,8 @@ class C11(Prop):
                    'integral seconds for the wall clock']
 
     def setup(self):
+        import logging
+        logging.disable(logging.CRITICAL)     # the dispatcher logs every contained handler error
         vclock.install()
         vclock.set(T0)
         from qtoggleserver.conf import settings
@@ -94,6 +96,21 @@ class C11(Prop):
         }
         self.loop = asyncio.new_event_loop()
         asyncio.set_event_loop(self.loop)
+
+        # An add-on style synchronous handler registered BEFORE the sessions handler (as startup does for
+        # settings.event_handlers); it raises on the event types a case arms. The dispatcher must contain that:
+        # listening sessions still get every event (core/events/handlers.py trigger).
+        prop = self
+
+        class AuditHandler(core_events.Handler):
+            FIRE_AND_FORGET = False
+
+            async def handle_event(self, event):
+                if event.get_type() in prop.armed_kinds:
+                    raise ValueError('audit sink unavailable')
+
+        self.armed_kinds = set()
+        core_events.register_handler(AuditHandler('verif-audit'))
         self.loop.run_until_complete(core_sessions.init())
         self.ports = {i: FakePort(i) for i in range(8)}
         self.slaves = {i: FakeSlave(i) for i in range(8)}
@@ -115,12 +132,22 @@ class C11(Prop):
             # relisten while active: the old request gets the queue
             {'cap': 8, 'ops': [['listen', 2, 20, 60, 0], ['trigger', 'value-change', 1], ['listen', 2, 10, 60, 0],
                                ['tick', 1]]},
+            # an earlier synchronous handler raises on port-remove: the session must still get all three events
+            {'cap': 8, 'faulty': ['port-remove'],
+             'ops': [['listen', 1, 30, 60, 0], ['tick', 1], ['listen', 1, 30, 60, 1], ['trigger', 'value-change', 1],
+                     ['trigger', 'port-remove', 1], ['trigger', 'value-change', 2], ['tick', 2]]},
             # expiry and re-creation
             {'cap': 8, 'ops': [['listen', 3, 10, 1, 0], ['tick', 2], ['trigger', 'port-add', 1], ['tick', 30],
                                ['listen', 3, 10, 1, 31], ['tick', 32]]},
         ]
 
     def gen(self, rng, tier):
+        case = self._gen(rng, tier)
+        if rng.random() < 0.25:
+            case['faulty'] = sorted(rng.sample(KINDS, rng.choice([1, 1, 2, 9])))
+        return case
+
+    def _gen(self, rng, tier):
         nsess = rng.choice([1, 1, 2, 3, 4])
         cap = rng.choice([1, 2, 2, 3, 3, 5, 8, 1024])
         nops = rng.randint(3, 40 if tier == 'quick' else 120)
@@ -151,15 +178,18 @@ class C11(Prop):
             for i in range(0, n, size):
                 cand = ops[:i] + ops[i + size:]
                 if len(cand) < n:
-                    yield {'cap': case['cap'], 'ops': cand}
+                    yield dict(case, ops=cand)
         if case['cap'] > 1:
-            yield {'cap': case['cap'] - 1 if case['cap'] < 10 else 8, 'ops': ops}
+            yield dict(case, cap=case['cap'] - 1 if case['cap'] < 10 else 8)
+        if case.get('faulty'):
+            yield {k: v for k, v in case.items() if k != 'faulty'}
 
     # ---------------------------------------------------------------- running
     async def _real(self, case):
         cs, ce = self.core_sessions, self.core_events
         cs._sessions_by_id.clear() if hasattr(cs, '_sessions_by_id') else None
         self.settings.core.event_queue_size = case['cap']
+        self.armed_kinds = set(case.get('faulty', ()))
         pending = {}           # req id -> (task, sid, lvl, start, timeout)
         serial = 0
         ev_req = {}
@@ -355,6 +385,8 @@ class C11(Prop):
                 lv[op[1]] = op[2]
         if nonempty:
             tags.add('nonempty-response')
+        if case.get('faulty'):
+            tags.add('earlier-handler-raises')
         key = None
         if nonempty and (tags & {'possible-dedup', 'possible-overflow', 'level-change'}):
             key = repr(real_c)
